@@ -308,6 +308,8 @@ def table_job(ctx, res):
                         "a reset that clears only on a changed base seed provably leaves an earlier generator in place (lemma_conditional_clear_depends_on_history)",
         "table clients": "vp_two_tests: reset(b); with_rng(k, fa); reset(b); with_rng(k, fb) - fb runs on gen_of(seed_of(b, k)) and the table ends as {k: (left by fb, seed_of(b, k))}: the same "
                          "postcondition (first_draw_post) as vp_test_b_alone (reset(b); with_rng(k, fb)) on an arbitrary table; vp_two_tests_busy: same with a test A that also seeds k explicitly and uses another handle",
+        "assumed std contract": "vp_std_or_insert*: under the assumed contract `or_insert_with(|| v)` meets the same model as vstd's `or_insert(v)`, writes through the slot reach the map, "
+                                "and an occupied entry accepts a closure with `requires false` (laziness)",
         "table frame": "random_table.rs mentions TABLE only in its thread_local declaration and in the four functions under contract (syntactic check)",
     })
     res.samples.append({"obligation": "verus:range:reset", "contract": RESET_SPEC.strip() + "   where reset_post(pre, post, b) = post.0 == b && post.1 =~= Map::empty()"})
@@ -316,7 +318,8 @@ def table_job(ctx, res):
                      "start of testbench::run_testbench (that every test begins with reset is not checked here); other per-test thread-local state (file_table, assert_buffer)")
     expect = ["reset", "with_rng", "seed_handle", "get_seed_handle",
               "lemma_reset_history_independent", "lemma_reproducible_after_reset", "lemma_isolation", "lemma_explicit_seed", "lemma_stream_continues",
-              "lemma_conditional_clear_depends_on_history", "vp_two_tests", "vp_test_b_alone", "vp_two_tests_busy"]
+              "lemma_conditional_clear_depends_on_history", "vp_two_tests", "vp_test_b_alone", "vp_two_tests_busy",
+              "vp_std_or_insert", "vp_std_or_insert_with", "vp_std_or_insert_with_write", "vp_std_or_insert_with_lazy"]
     return VerusJob("range_table", text, vf, expect, canaries=T_CANARIES, items=items, trusted=T_TRUSTED, rlimit=30)
 
 
